@@ -579,7 +579,7 @@ class MultiStream(Stream):
             s2.phases = phases
             for phase in phases: self[phase].split_to(s1[phase], s2[phase], split)
         else:
-            Stream.split_to(self, s1, s2, split)
+            Stream.split_to(self, s1, s2, split, energy_balance)
             return
         if energy_balance:
             tc1 = s1._thermal_condition
